@@ -1,1 +1,1465 @@
-fn main() { unimplemented!() }
+//! C13 — `Command::spawn` returns in exactly one process; on Ok the child runs the
+//! requested program with exactly the configured argv / environment / cwd / stdio /
+//! ids and `wait` reports its status; when a step up to and including exec fails the
+//! caller gets that step's errno and no process keeps running the caller's code.
+//!
+//! Technique: fault enumeration (engine E2) over the syscall seam on the REAL
+//! `Command::spawn`.  For every configuration the fault-free run records the
+//! intercepted calls of the parent AND of the forked child (the seam is re-armed in
+//! the child, the plan logs into a MAP_SHARED page); then the run is repeated once per
+//! (call, errno of the call's menu).  Every run happens in its own forked "caller"
+//! process P, so that a child that wrongly returns from `spawn()` can be detected
+//! (`getpid() != caller`) and stopped with `_exit` before it runs harness code.
+//!
+//! Process tree of one case:  harness → shard (run_isolated) → P (the caller of
+//! spawn) → child (fork inside spawn; execs `spawn-helper`, which dumps what it sees
+//! to descriptor 9).
+
+mod helper;
+
+use common::*;
+use helper::{hex, unhex, ERR_TOKEN, OUT_TOKEN, PROTO, REPORT_FD};
+use serde_json::{json, Value};
+use std::collections::HashSet;
+use std::ffi::CString;
+use std::sync::atomic::{AtomicI32, AtomicI64, AtomicU32, Ordering::SeqCst};
+use tiny_std::process::{Command, Stdio};
+use tiny_std::unix::fd::AsRawFd;
+use tiny_std::{Errno, UnixStr, UnixString};
+
+const WITH_START: bool = cfg!(feature = "with-start");
+const CASE_ALARM: u32 = 12;
+const NOBODY: u32 = 65534;
+const CLOSURE_ERRNO: i32 = libc::EXDEV;
+const CLOSURE_UMASK: u32 = 0o137;
+const PARENT_STDIN: &[u8] = b"PARENT-STDIN\n";
+const RAW_STDIN: &[u8] = b"RAW-STDIN\n";
+const PIPE_STDIN: &[u8] = b"PIPE-STDIN\n";
+const RAW_FD_BASE: i32 = 20;
+const STREAMS: [&str; 3] = ["stdin", "stdout", "stderr"];
+
+// ---------------------------------------------------------------------------
+// configuration
+
+#[derive(Clone, Copy, PartialEq, Eq, Debug, Hash)]
+enum Sm {
+    Unset,
+    Inherit,
+    Null,
+    Pipe,
+    Raw,
+}
+const SMS: [Sm; 5] = [Sm::Unset, Sm::Inherit, Sm::Null, Sm::Pipe, Sm::Raw];
+impl Sm {
+    fn name(self) -> &'static str {
+        match self {
+            Sm::Unset => "unset",
+            Sm::Inherit => "Inherit",
+            Sm::Null => "Null",
+            Sm::Pipe => "MakePipe",
+            Sm::Raw => "RawFd",
+        }
+    }
+    fn from_name(s: &str) -> Sm {
+        SMS.iter().copied().find(|m| m.name() == s).expect("stdio mode")
+    }
+}
+
+#[derive(Clone, PartialEq, Debug)]
+struct Config {
+    /// "helper" | "missing" | "notexec" | "dir"
+    bin: String,
+    args: Vec<Vec<u8>>,
+    /// None: `env`/`envs` never called; Some(v): `envs(v)` (v may be empty)
+    env: Option<Vec<Vec<u8>>>,
+    /// "unset" | "dir" | "missing"
+    cwd: String,
+    stdio: [Sm; 3],
+    /// "unset" | "current" | "nobody"
+    uid: String,
+    gid: String,
+    /// "unset" | "zero" | "own" | "other"
+    pgroup: String,
+    /// "none" | "ok" | "fail"
+    closure: String,
+}
+
+impl Config {
+    fn base() -> Config {
+        Config {
+            bin: "helper".into(),
+            args: vec![b"--exit=7".to_vec()],
+            env: None,
+            cwd: "unset".into(),
+            stdio: [Sm::Unset; 3],
+            uid: "unset".into(),
+            gid: "unset".into(),
+            pgroup: "unset".into(),
+            closure: "none".into(),
+        }
+    }
+    fn to_json(&self) -> Value {
+        json!({
+            "bin": self.bin,
+            "args": self.args.iter().map(|a| show_bytes(a)).collect::<Vec<_>>(),
+            "env": match &self.env { None => Value::Null, Some(v) => json!(v.iter().map(|a| show_bytes(a)).collect::<Vec<_>>()) },
+            "cwd": self.cwd,
+            "stdio": self.stdio.iter().map(|m| m.name()).collect::<Vec<_>>(),
+            "uid": self.uid, "gid": self.gid, "pgroup": self.pgroup, "closure": self.closure,
+        })
+    }
+    fn from_json(v: &Value) -> Config {
+        let strs = |x: &Value| -> Vec<Vec<u8>> { x.as_array().map(|a| a.iter().map(|s| parse_shown(s.as_str().unwrap_or(""))).collect()).unwrap_or_default() };
+        let st: Vec<Sm> = v["stdio"].as_array().map(|a| a.iter().map(|s| Sm::from_name(s.as_str().unwrap_or("unset"))).collect()).unwrap_or_default();
+        let s = |k: &str, d: &str| v[k].as_str().unwrap_or(d).to_string();
+        Config {
+            bin: s("bin", "helper"),
+            args: strs(&v["args"]),
+            env: if v["env"].is_null() { None } else { Some(strs(&v["env"])) },
+            cwd: s("cwd", "unset"),
+            stdio: [st.first().copied().unwrap_or(Sm::Unset), st.get(1).copied().unwrap_or(Sm::Unset), st.get(2).copied().unwrap_or(Sm::Unset)],
+            uid: s("uid", "unset"),
+            gid: s("gid", "unset"),
+            pgroup: s("pgroup", "unset"),
+            closure: s("closure", "none"),
+        }
+    }
+    /// the step that fails without any injection, with the errno Linux gives
+    fn natural_failure(&self) -> Option<(String, i32)> {
+        // child-side order in do_spawn: dup2 x3, chdir, setuid, setgid, setpgid, closures, execve
+        if self.cwd == "missing" {
+            return Some(("child-chdir".into(), libc::ENOENT));
+        }
+        if self.closure == "fail" {
+            return Some(("closure".into(), CLOSURE_ERRNO));
+        }
+        match self.bin.as_str() {
+            "missing" => Some(("child-execve".into(), libc::ENOENT)),
+            "notexec" | "dir" => Some(("child-execve".into(), libc::EACCES)),
+            _ => None,
+        }
+    }
+    /// uid and gid both changed to an unprivileged id: the statement allows either a child
+    /// with both ids or an error (setgid after setuid is refused by Linux)
+    fn drops_both_ids(&self) -> bool {
+        self.uid == "nobody" && self.gid == "nobody"
+    }
+}
+
+#[derive(Clone, PartialEq, Debug)]
+struct Fault {
+    child: bool,
+    idx: usize,
+    nr: i64,
+    errno: i32,
+    /// the call is executed for real and the error reported afterwards (`close`)
+    after_real: bool,
+    step: String,
+}
+impl Fault {
+    fn to_json(&self) -> Value {
+        json!({"side": if self.child { "child" } else { "parent" }, "idx": self.idx, "nr": self.nr, "call": sysx::name(self.nr),
+               "errno": self.errno, "after_real": self.after_real, "step": self.step})
+    }
+    fn from_json(v: &Value) -> Fault {
+        Fault {
+            child: v["side"].as_str() == Some("child"),
+            idx: v["idx"].as_u64().unwrap_or(0) as usize,
+            nr: v["nr"].as_i64().unwrap_or(-1),
+            errno: v["errno"].as_i64().unwrap_or(0) as i32,
+            after_real: v["after_real"].as_bool().unwrap_or(false),
+            step: v["step"].as_str().unwrap_or("?").to_string(),
+        }
+    }
+    /// failures the code may legitimately absorb: `close` reporting an error after having
+    /// released the descriptor, an interrupted `read`/`wait4`
+    fn tolerable(&self) -> bool {
+        self.nr == libc::SYS_close || ((self.nr == libc::SYS_read || self.nr == libc::SYS_wait4) && self.errno == libc::EINTR)
+    }
+}
+
+fn step_name(child: bool, nr: i64, args: &[u64; 6]) -> String {
+    let side = if child { "child" } else { "parent" };
+    if nr == libc::SYS_dup3 || nr == libc::SYS_dup2 {
+        let s = STREAMS.get(args[1] as usize).copied().unwrap_or("other");
+        return format!("{side}-{}-{s}", sysx::name(nr));
+    }
+    format!("{side}-{}", sysx::name(nr))
+}
+
+/// Appendix C menus: only answers Linux can give for the call, with Linux's side effect.
+fn menu(nr: i64, thorough: bool) -> Vec<(i32, bool)> {
+    let m: Vec<(i32, bool)> = match nr {
+        x if x == libc::SYS_pipe2 => vec![(libc::EMFILE, false), (libc::ENFILE, false), (libc::ENOMEM, false)],
+        x if x == libc::SYS_openat || x == libc::SYS_open => vec![(libc::EMFILE, false), (libc::ENOENT, false), (libc::EACCES, false), (libc::ENOMEM, false)],
+        x if x == libc::SYS_fork || x == libc::SYS_clone || x == libc::SYS_vfork => vec![(libc::EAGAIN, false), (libc::ENOMEM, false)],
+        x if x == libc::SYS_close => vec![(libc::EIO, true), (libc::EINTR, true)],
+        x if x == libc::SYS_read => vec![(libc::EINTR, false)],
+        x if x == libc::SYS_wait4 => vec![(libc::EINTR, false)],
+        // EBUSY is a C09 matter (rusl's dup3 special-cases the value 16)
+        x if x == libc::SYS_dup3 || x == libc::SYS_dup2 => vec![(libc::EMFILE, false), (libc::EBADF, false)],
+        x if x == libc::SYS_chdir => vec![(libc::ENOENT, false), (libc::ENOTDIR, false), (libc::EACCES, false)],
+        x if x == libc::SYS_setuid => vec![(libc::EPERM, false), (libc::EAGAIN, false)],
+        x if x == libc::SYS_setgid => vec![(libc::EPERM, false)],
+        x if x == libc::SYS_setpgid => vec![(libc::EPERM, false), (libc::ESRCH, false), (libc::EACCES, false)],
+        x if x == libc::SYS_execve => vec![(libc::ENOENT, false), (libc::EACCES, false), (libc::ENOMEM, false), (libc::E2BIG, false)],
+        _ => vec![],
+    };
+    if thorough {
+        m
+    } else {
+        // quick: two answers for the calls the property names, one for the rest
+        let keep = if nr == libc::SYS_execve || nr == libc::SYS_dup3 || nr == libc::SYS_chdir || nr == libc::SYS_setpgid || nr == libc::SYS_fork { 2 } else { 1 };
+        m.into_iter().take(keep).collect()
+    }
+}
+
+// ---------------------------------------------------------------------------
+// shared page between P, the forked child and the shard
+
+const TRACE_CAP: usize = 200;
+const OBS_CAP: usize = 1 << 19;
+
+#[repr(C)]
+struct TraceEnt {
+    pid: i32,
+    idx: u32,
+    nr: i64,
+    args: [u64; 6],
+    ret: i64,
+    has_ret: u32,
+    _pad: u32,
+}
+
+#[repr(C)]
+struct Shm {
+    returned_in_child: AtomicU32,
+    returned_pid: AtomicI32,
+    child_panicked: AtomicU32,
+    closure_pid: AtomicI32,
+    closure_runs: AtomicU32,
+    fault_hit: AtomicU32,
+    fault_nr_mismatch: AtomicU32,
+    fault_seen_nr: AtomicI64,
+    trace_n: AtomicU32,
+    obs_len: AtomicU32,
+    trace: [TraceEnt; TRACE_CAP],
+    obs: [u8; OBS_CAP],
+}
+
+fn shm_new() -> *mut Shm {
+    unsafe {
+        let p = libc::mmap(std::ptr::null_mut(), std::mem::size_of::<Shm>(), libc::PROT_READ | libc::PROT_WRITE, libc::MAP_SHARED | libc::MAP_ANONYMOUS, -1, 0);
+        assert!(p != libc::MAP_FAILED, "mmap shared page");
+        p as *mut Shm
+    }
+}
+fn shm_reset(s: *mut Shm) {
+    unsafe {
+        let hdr = std::mem::offset_of!(Shm, obs);
+        std::ptr::write_bytes(s as *mut u8, 0, hdr);
+    }
+}
+
+struct CasePlan {
+    shm: *mut Shm,
+    caller: i32,
+    faults: Vec<Fault>,
+    last_slot: usize,
+}
+impl sysx::Plan for CasePlan {
+    fn decide(&mut self, idx: usize, nr: i64, args: &[u64; 6]) -> sysx::Decision {
+        unsafe {
+            let pid = libc::getpid();
+            let child = pid != self.caller;
+            let slot = (*self.shm).trace_n.fetch_add(1, SeqCst) as usize;
+            self.last_slot = slot;
+            if slot < TRACE_CAP {
+                let e = &mut (*self.shm).trace[slot];
+                e.pid = pid;
+                e.idx = idx as u32;
+                e.nr = nr;
+                e.args = *args;
+                e.ret = 0;
+                e.has_ret = 0;
+            }
+            for (i, f) in self.faults.iter().enumerate() {
+                if f.child == child && f.idx == idx {
+                    if f.nr != nr {
+                        (*self.shm).fault_nr_mismatch.fetch_or(1 << i, SeqCst);
+                        (*self.shm).fault_seen_nr.store(nr, SeqCst);
+                        return sysx::Decision::Pass;
+                    }
+                    (*self.shm).fault_hit.fetch_or(1 << i, SeqCst);
+                    let v = -(f.errno as i64);
+                    return if f.after_real { sysx::Decision::PassThenForce(v) } else { sysx::Decision::Force(v) };
+                }
+            }
+            sysx::Decision::Pass
+        }
+    }
+    fn after(&mut self, _idx: usize, call: &sysx::Call) {
+        unsafe {
+            let is_fork = call.nr == libc::SYS_fork || call.nr == libc::SYS_vfork || call.nr == libc::SYS_clone;
+            if is_fork && call.ret == 0 {
+                return; // the child's view of fork; the slot belongs to the parent
+            }
+            if self.last_slot < TRACE_CAP {
+                let e = &mut (*self.shm).trace[self.last_slot];
+                e.ret = call.ret;
+                e.has_ret = 1;
+            }
+        }
+    }
+}
+
+// ---------------------------------------------------------------------------
+// context
+
+#[derive(Clone)]
+struct Ctx {
+    root: String,
+    helper: String,
+    cwd_dir: String,
+    thorough: bool,
+    root_user: bool,
+}
+impl Ctx {
+    fn missing_dir(&self) -> String {
+        format!("{}/no-such-dir", self.root)
+    }
+    fn missing_bin(&self) -> String {
+        format!("{}/no-such-bin", self.root)
+    }
+    fn notexec(&self) -> String {
+        format!("{}/notexec", self.root)
+    }
+    fn bin_path(&self, cfg: &Config) -> String {
+        match cfg.bin.as_str() {
+            "helper" => self.helper.clone(),
+            "missing" => self.missing_bin(),
+            "notexec" => self.notexec(),
+            _ => self.cwd_dir.clone(),
+        }
+    }
+}
+
+fn make_ctx(thorough: bool) -> Ctx {
+    let base = if std::path::Path::new("/dev/shm").is_dir() { "/dev/shm".to_string() } else { std::env::temp_dir().to_string_lossy().to_string() };
+    let root = format!("{base}/h-spawn-{}-{}", std::process::id(), if WITH_START { "start" } else { "nostart" });
+    let _ = std::fs::remove_dir_all(&root);
+    std::fs::create_dir_all(&root).expect("temp dir");
+    chmod(&root, 0o755);
+    let root = std::fs::canonicalize(&root).unwrap().to_string_lossy().to_string();
+    let cwd_dir = format!("{root}/cwd-target");
+    std::fs::create_dir_all(&cwd_dir).unwrap();
+    chmod(&cwd_dir, 0o755);
+    std::fs::write(format!("{root}/notexec"), b"#!/bin/sh\nexit 0\n").unwrap();
+    chmod(&format!("{root}/notexec"), 0o644);
+    // the helper: the sibling binary when it exists, else this very executable under the helper's name
+    let me = std::env::current_exe().expect("current_exe");
+    let sibling = me.parent().map(|p| p.join(helper::HELPER_NAME));
+    let helper = format!("{root}/{}", helper::HELPER_NAME);
+    let src = match sibling {
+        Some(s) if s.is_file() => s,
+        _ => me.clone(),
+    };
+    std::fs::copy(&src, &helper).expect("copy helper");
+    chmod(&helper, 0o755);
+    Ctx { root, helper, cwd_dir, thorough, root_user: unsafe { libc::geteuid() } == 0 }
+}
+
+fn chmod(p: &str, mode: u32) {
+    let c = CString::new(p).unwrap();
+    unsafe {
+        libc::chmod(c.as_ptr(), mode as libc::mode_t);
+    }
+}
+
+// ---------------------------------------------------------------------------
+// P: the process that calls spawn
+
+unsafe fn write_file(path: &str, data: &[u8]) {
+    let c = CString::new(path).unwrap();
+    let fd = libc::open(c.as_ptr(), libc::O_WRONLY | libc::O_CREAT | libc::O_TRUNC | libc::O_CLOEXEC, 0o666);
+    if fd >= 0 {
+        libc::fchmod(fd, 0o666);
+        if !data.is_empty() {
+            libc::write(fd, data.as_ptr() as *const libc::c_void, data.len());
+        }
+        libc::close(fd);
+    }
+}
+unsafe fn read_fd_all(fd: i32) -> (Vec<u8>, i32) {
+    let mut v = Vec::new();
+    let mut buf = [0u8; 4096];
+    loop {
+        let n = libc::read(fd, buf.as_mut_ptr() as *mut libc::c_void, buf.len());
+        if n < 0 {
+            let e = *libc::__errno_location();
+            if e == libc::EINTR {
+                continue;
+            }
+            return (v, e);
+        }
+        if n == 0 {
+            return (v, 0);
+        }
+        v.extend_from_slice(&buf[..n as usize]);
+        if v.len() > OBS_CAP / 8 {
+            return (v, 0);
+        }
+    }
+}
+unsafe fn read_file(path: &str) -> Vec<u8> {
+    let c = CString::new(path).unwrap();
+    let fd = libc::open(c.as_ptr(), libc::O_RDONLY | libc::O_CLOEXEC);
+    if fd < 0 {
+        return Vec::new();
+    }
+    let (v, _) = read_fd_all(fd);
+    libc::close(fd);
+    v
+}
+unsafe fn path_ident(path: &str) -> Value {
+    let c = CString::new(path).unwrap();
+    let mut st: libc::stat = std::mem::zeroed();
+    if libc::stat(c.as_ptr(), &mut st) != 0 {
+        return Value::Null;
+    }
+    json!({"dev": st.st_dev as u64, "ino": st.st_ino as u64, "type": (st.st_mode & libc::S_IFMT) as u64, "rdev": st.st_rdev as u64})
+}
+unsafe fn open_at_fd(path: &str, flags: i32, target: i32) -> bool {
+    let c = CString::new(path).unwrap();
+    let fd = libc::open(c.as_ptr(), flags, 0o666);
+    if fd < 0 {
+        return false;
+    }
+    if fd != target {
+        if libc::dup2(fd, target) < 0 {
+            return false;
+        }
+        libc::close(fd);
+    }
+    true
+}
+
+fn nul(b: &[u8]) -> Vec<u8> {
+    let mut v = b.to_vec();
+    v.push(0);
+    v
+}
+
+#[inline(never)]
+fn after_spawn(caller: i32, shm: *mut Shm, panicked: bool) {
+    unsafe {
+        let me = libc::getpid();
+        if me != caller {
+            // a process other than the caller reached the statement after `spawn()`
+            (*shm).returned_in_child.fetch_add(1, SeqCst);
+            (*shm).returned_pid.store(me, SeqCst);
+            if panicked {
+                (*shm).child_panicked.store(1, SeqCst);
+            }
+            libc::_exit(99);
+        }
+    }
+}
+
+fn finish(shm: *mut Shm, obs: &Value) -> ! {
+    unsafe {
+        let b = serde_json::to_vec(obs).unwrap();
+        let n = b.len().min(OBS_CAP);
+        std::ptr::copy_nonoverlapping(b.as_ptr(), (*shm).obs.as_mut_ptr(), n);
+        (*shm).obs_len.store(n as u32, SeqCst);
+        libc::_exit(0);
+    }
+}
+
+fn trace_json(shm: *mut Shm, caller: i32) -> Vec<Value> {
+    let mut v = Vec::new();
+    unsafe {
+        let n = ((*shm).trace_n.load(SeqCst) as usize).min(TRACE_CAP);
+        for i in 0..n {
+            let e = &(*shm).trace[i];
+            v.push(json!({
+                "side": if e.pid == caller { "parent" } else { "child" },
+                "pid": e.pid, "idx": e.idx, "nr": e.nr, "call": sysx::name(e.nr),
+                "args": [e.args[0], e.args[1], e.args[2]],
+                "ret": if e.has_ret != 0 { json!(e.ret) } else { Value::Null },
+            }));
+        }
+    }
+    v.sort_by_key(|x| (x["side"].as_str() == Some("child"), x["idx"].as_u64()));
+    v
+}
+
+/// Runs in P (never returns).  Everything outside `sysx::run` uses libc only.
+fn exec_case(ctx: &Ctx, sdir: &str, shm: *mut Shm, shard_pgid: i32, cfg: &Config, faults: &[Fault]) -> ! {
+    unsafe {
+        libc::setpgid(0, 0);
+        libc::alarm(CASE_ALARM);
+        let caller = libc::getpid();
+        let f = |n: &str| format!("{sdir}/{n}");
+        write_file(&f("in0"), PARENT_STDIN);
+        write_file(&f("out1"), b"");
+        write_file(&f("err2"), b"");
+        write_file(&f("raw0"), RAW_STDIN);
+        write_file(&f("raw1"), b"");
+        write_file(&f("raw2"), b"");
+        write_file(&f("report"), b"");
+        // P's own standard streams: three distinct files, so that "inherited" is checkable
+        let ok = open_at_fd(&f("in0"), libc::O_RDONLY, 0)
+            && open_at_fd(&f("out1"), libc::O_WRONLY, 1)
+            && open_at_fd(&f("err2"), libc::O_WRONLY, 2)
+            && open_at_fd(&f("report"), libc::O_WRONLY, REPORT_FD);
+        if !ok {
+            finish(shm, &json!({"machinery": "could not set up P's descriptors"}));
+        }
+        let mut raw_ident = vec![Value::Null; 3];
+        for i in 0..3 {
+            if cfg.stdio[i] == Sm::Raw {
+                let flags = if i == 0 { libc::O_RDONLY } else { libc::O_WRONLY };
+                if !open_at_fd(&f(&format!("raw{i}")), flags, RAW_FD_BASE + i as i32) {
+                    finish(shm, &json!({"machinery": "could not open a RawFd file"}));
+                }
+                raw_ident[i] = helper::fd_ident(RAW_FD_BASE + i as i32);
+            }
+        }
+        let parent_ident: Vec<Value> = (0..3).map(helper::fd_ident).collect();
+        let mut cwdbuf = [0u8; 4096];
+        libc::getcwd(cwdbuf.as_mut_ptr() as *mut libc::c_char, cwdbuf.len());
+        let parent_cwd = cwdbuf[..cwdbuf.iter().position(|&c| c == 0).unwrap_or(0)].to_vec();
+        let um = libc::umask(0o022);
+        libc::umask(um);
+        let inheritable: Vec<i32> = helper::fd_table().into_iter().map(|(n, _)| n).filter(|&n| libc::fcntl(n, libc::F_GETFD) & libc::FD_CLOEXEC == 0).collect();
+
+        // ---- the command
+        let bin_b = nul(ctx.bin_path(cfg).as_bytes());
+        let args_b: Vec<Vec<u8>> = cfg.args.iter().map(|a| nul(a)).collect();
+        let cwd_b = nul(match cfg.cwd.as_str() {
+            "dir" => ctx.cwd_dir.clone(),
+            _ => ctx.missing_dir(),
+        }
+        .as_bytes());
+        let bin = UnixStr::try_from_bytes(&bin_b).expect("bin");
+        let mut cmd = Command::new(bin).expect("Command::new");
+        for a in &args_b {
+            cmd.arg(UnixStr::try_from_bytes(a).expect("arg"));
+        }
+        if let Some(envs) = &cfg.env {
+            let v: Vec<UnixString> = envs.iter().map(|e| UnixString::try_from_vec(nul(e)).expect("env entry")).collect();
+            cmd.envs(v.into_iter());
+        }
+        if cfg.cwd != "unset" {
+            cmd.cwd(UnixStr::try_from_bytes(&cwd_b).expect("cwd"));
+        }
+        match cfg.uid.as_str() {
+            "current" => {
+                cmd.uid(libc::geteuid());
+            }
+            "nobody" => {
+                cmd.uid(NOBODY);
+            }
+            _ => {}
+        }
+        match cfg.gid.as_str() {
+            "current" => {
+                cmd.gid(libc::getegid());
+            }
+            "nobody" => {
+                cmd.gid(NOBODY);
+            }
+            _ => {}
+        }
+        match cfg.pgroup.as_str() {
+            "zero" => {
+                cmd.pgroup(0);
+            }
+            "own" => {
+                cmd.pgroup(libc::getpgid(0));
+            }
+            "other" => {
+                cmd.pgroup(shard_pgid);
+            }
+            _ => {}
+        }
+        for i in 0..3 {
+            let s = match cfg.stdio[i] {
+                Sm::Unset => continue,
+                Sm::Inherit => Stdio::Inherit,
+                Sm::Null => Stdio::Null,
+                Sm::Pipe => Stdio::MakePipe,
+                Sm::Raw => Stdio::RawFd(rusl::platform::Fd::try_new(RAW_FD_BASE + i as i32).unwrap()),
+            };
+            match i {
+                0 => cmd.stdin(s),
+                1 => cmd.stdout(s),
+                _ => cmd.stderr(s),
+            };
+        }
+        let shm_addr = shm as usize;
+        match cfg.closure.as_str() {
+            "ok" => {
+                cmd.pre_exec(move || {
+                    let s = shm_addr as *mut Shm;
+                    (*s).closure_pid.store(libc::getpid(), SeqCst);
+                    (*s).closure_runs.fetch_add(1, SeqCst);
+                    libc::umask(CLOSURE_UMASK as libc::mode_t);
+                    Ok(())
+                });
+            }
+            "fail" => {
+                cmd.pre_exec(move || {
+                    let s = shm_addr as *mut Shm;
+                    (*s).closure_pid.store(libc::getpid(), SeqCst);
+                    (*s).closure_runs.fetch_add(1, SeqCst);
+                    Err(tiny_std::Error::Os { msg: "pre-exec closure of the harness fails", code: Errno::new(CLOSURE_ERRNO) })
+                });
+            }
+            _ => {}
+        }
+
+        // ---- the operation under test
+        let mut plan = CasePlan { shm, caller, faults: faults.to_vec(), last_slot: usize::MAX };
+        let res = catch(|| {
+            sysx::run_opt(&mut plan, None, || {
+                let r = cmd.spawn();
+                after_spawn(caller, shm, false);
+                r
+            })
+            .0
+        });
+        after_spawn(caller, shm, res.is_err());
+
+        let mut obs = json!({
+            "caller": caller, "parent_ident": parent_ident, "raw_ident": raw_ident, "null_ident": path_ident("/dev/null"),
+            "parent_cwd": hex(&parent_cwd), "parent_umask": um as u64, "inheritable": inheritable,
+            "parent_uid": libc::geteuid(), "parent_gid": libc::getegid(), "parent_pgid": libc::getpgid(0), "shard_pgid": shard_pgid,
+        });
+        let fork_pid = {
+            let n = ((*shm).trace_n.load(SeqCst) as usize).min(TRACE_CAP);
+            (0..n).map(|i| &(*shm).trace[i]).find(|e| e.nr == libc::SYS_fork && e.pid == caller && e.has_ret != 0 && e.ret > 0).map(|e| e.ret as i32)
+        };
+        obs["fork_pid"] = json!(fork_pid);
+        match res {
+            Err(p) => {
+                obs["spawn"] = json!("panic");
+                obs["panic"] = json!(p);
+            }
+            Ok(Err(e)) => {
+                obs["spawn"] = json!("err");
+                obs["err"] = match e {
+                    tiny_std::Error::Os { msg, code } => json!({"kind": "os", "code": code.raw(), "msg": msg}),
+                    tiny_std::Error::Uncategorized(m) => json!({"kind": "uncategorized", "msg": m}),
+                    tiny_std::Error::Timeout => json!({"kind": "timeout"}),
+                };
+            }
+            Ok(Ok(mut child)) => {
+                obs["spawn"] = json!("ok");
+                obs["child_pid"] = json!(child.get_pid());
+                let fdnum = |p: &Option<tiny_std::process::AnonPipe>| p.as_ref().map(|a| a.borrow_fd().as_raw_fd().value());
+                let fds = [fdnum(&child.stdin), fdnum(&child.stdout), fdnum(&child.stderr)];
+                obs["pipe_ident"] = json!(fds.iter().map(|f| f.map(helper::fd_ident).unwrap_or(Value::Null)).collect::<Vec<_>>());
+                obs["pipe_held"] = json!(fds.iter().map(|f| f.is_some()).collect::<Vec<_>>());
+                if let Some(fd) = fds[0] {
+                    libc::write(fd, PIPE_STDIN.as_ptr() as *const libc::c_void, PIPE_STDIN.len());
+                }
+                drop(child.stdin.take());
+                let mut pipe_data = vec![Value::Null; 3];
+                for i in 1..3 {
+                    if let Some(fd) = fds[i] {
+                        let (d, e) = read_fd_all(fd);
+                        pipe_data[i] = json!({"data": hex(&d), "err": e});
+                    }
+                }
+                obs["pipe_data"] = json!(pipe_data);
+                obs["wait"] = match catch(|| child.wait()) {
+                    Ok(Ok(s)) => json!({"ok": s}),
+                    Ok(Err(e)) => json!({"err": format!("{e}")}),
+                    Err(p) => json!({"panic": p}),
+                };
+                drop(child);
+            }
+        }
+        // ---- whoever is left
+        let mut left = Vec::new();
+        if let Some(pid) = fork_pid {
+            let mut st = 0;
+            let r = libc::waitpid(pid, &mut st, libc::WNOHANG);
+            if r == pid {
+                left.push(json!({"pid": pid, "state": "zombie", "status": st}));
+            } else if r == 0 {
+                let exe = std::fs::read_link(format!("/proc/{pid}/exe")).map(|p| p.to_string_lossy().to_string()).unwrap_or_default();
+                // does it go away by itself?
+                let mut gone = false;
+                for _ in 0..300 {
+                    libc::usleep(1000);
+                    if libc::waitpid(pid, &mut st, libc::WNOHANG) == pid {
+                        gone = true;
+                        break;
+                    }
+                }
+                if !gone {
+                    libc::kill(pid, libc::SIGKILL);
+                    libc::waitpid(pid, &mut st, 0);
+                }
+                left.push(json!({"pid": pid, "state": "alive", "exe": exe, "is_helper": exe == ctx.helper, "exited_by_itself": gone, "status": st}));
+            }
+        }
+        loop {
+            let mut st = 0;
+            let r = libc::waitpid(-1, &mut st, libc::WNOHANG);
+            if r > 0 {
+                left.push(json!({"pid": r, "state": "zombie", "status": st}));
+                continue;
+            }
+            if r == 0 {
+                left.push(json!({"pid": 0, "state": "alive-unknown"}));
+            }
+            break;
+        }
+        obs["left"] = json!(left);
+        let rep = read_file(&f("report"));
+        obs["helper"] = if rep.is_empty() { Value::Null } else { serde_json::from_slice(&rep).unwrap_or(json!({"unparsable": hex(&rep)})) };
+        obs["files"] = json!({"out1": hex(&read_file(&f("out1"))), "err2": hex(&read_file(&f("err2"))), "raw1": hex(&read_file(&f("raw1"))), "raw2": hex(&read_file(&f("raw2")))});
+        obs["returned_in_child"] = json!((*shm).returned_in_child.load(SeqCst));
+        obs["child_panicked"] = json!((*shm).child_panicked.load(SeqCst));
+        obs["closure_pid"] = json!((*shm).closure_pid.load(SeqCst));
+        obs["closure_runs"] = json!((*shm).closure_runs.load(SeqCst));
+        obs["fault_hit"] = json!((*shm).fault_hit.load(SeqCst));
+        obs["fault_nr_mismatch"] = json!((*shm).fault_nr_mismatch.load(SeqCst));
+        obs["trace_overflow"] = json!((*shm).trace_n.load(SeqCst) as usize > TRACE_CAP);
+        obs["trace"] = json!(trace_json(shm, caller));
+        finish(shm, &obs);
+    }
+}
+
+// ---------------------------------------------------------------------------
+// shard side: run one case in a fresh P and judge what it observed
+
+struct Shard {
+    ctx: Ctx,
+    sdir: String,
+    shm: *mut Shm,
+    pgid: i32,
+}
+
+impl Shard {
+    fn new(ctx: &Ctx, name: &str) -> Shard {
+        let sdir = format!("{}/{name}", ctx.root);
+        std::fs::create_dir_all(&sdir).expect("shard dir");
+        chmod(&sdir, 0o755);
+        // compute the seam's allowed range once (inherited by every P)
+        assert!(sysx::arm(), "Syscall User Dispatch not available");
+        sysx::disarm();
+        Shard { ctx: ctx.clone(), sdir, shm: shm_new(), pgid: unsafe { libc::getpgid(0) } }
+    }
+
+    /// Ok(observation) or Err("hang" | machinery message)
+    fn run(&self, cfg: &Config, faults: &[Fault]) -> Result<Value, String> {
+        shm_reset(self.shm);
+        unsafe {
+            let pid = libc::fork();
+            if pid == 0 {
+                exec_case(&self.ctx, &self.sdir, self.shm, self.pgid, cfg, faults);
+            }
+            if pid < 0 {
+                return Err("machinery: fork of P failed".into());
+            }
+            let mut st = 0;
+            loop {
+                let r = libc::waitpid(pid, &mut st, 0);
+                if r == pid || (r < 0 && *libc::__errno_location() != libc::EINTR) {
+                    break;
+                }
+            }
+            let normal = libc::WIFEXITED(st) && libc::WEXITSTATUS(st) == 0;
+            if !normal {
+                // clean up whatever P left in its process group
+                libc::kill(-pid, libc::SIGKILL);
+            }
+            if libc::WIFSIGNALED(st) && libc::WTERMSIG(st) == libc::SIGALRM {
+                return Err("hang".into());
+            }
+            if !normal {
+                return Err(format!("machinery: P ended with wait status {st:#x}"));
+            }
+            let n = (*self.shm).obs_len.load(SeqCst) as usize;
+            if n == 0 {
+                return Err("machinery: P left no observation".into());
+            }
+            let v: Value = serde_json::from_slice(&(&(*self.shm).obs)[..n]).map_err(|e| format!("machinery: observation unparsable: {e}"))?;
+            if let Some(m) = v.get("machinery").and_then(|m| m.as_str()) {
+                return Err(format!("machinery: {m}"));
+            }
+            Ok(v)
+        }
+    }
+}
+
+fn replay_of(cfg: &Config, faults: &[Fault]) -> Value {
+    json!({
+        "op": "spawn",
+        "variant": if WITH_START { "start" } else { "nostart" },
+        "cfg": cfg.to_json(),
+        "faults": faults.iter().map(|f| f.to_json()).collect::<Vec<_>>(),
+    })
+}
+
+fn ident_eq(a: &Value, b: &Value) -> bool {
+    !a.is_null() && !b.is_null() && a["dev"] == b["dev"] && a["ino"] == b["ino"] && a["type"] == b["type"]
+}
+
+/// The oracle for a run in which spawn must have succeeded: the helper's dump equals the configuration.
+fn judge_ok(ctx: &Ctx, cfg: &Config, obs: &Value, r: &mut Report, rp: &Value) {
+    let h = &obs["helper"];
+    if h.is_null() || h["proto"].as_u64().is_none() {
+        r.outcome("ok-but-no-dump");
+        r.violation("C13:spawn:ok-but-program-not-run", format!("spawn returned Ok but the requested program left no dump (wait: {})", obs["wait"]), rp.clone());
+        return;
+    }
+    if h["proto"].as_u64() != Some(PROTO) {
+        r.cap("stale spawn-helper next to the harness (protocol mismatch): rebuild with `cargo build -p h-spawn`");
+        r.notes.push("machinery-failure".into());
+        return;
+    }
+    let strs = |v: &Value| -> Vec<Vec<u8>> { v.as_array().map(|a| a.iter().map(|s| unhex(s.as_str().unwrap_or(""))).collect()).unwrap_or_default() };
+    let show = |v: &[Vec<u8>]| format!("[{}]", v.iter().map(|a| format!("\"{}\"", show_bytes(a))).collect::<Vec<_>>().join(", "));
+    // argv: Command::new puts the binary path first, then every `arg`
+    let mut want_argv = vec![ctx.bin_path(cfg).into_bytes()];
+    want_argv.extend(cfg.args.iter().cloned());
+    let got_argv = strs(&h["argv"]);
+    if got_argv != want_argv {
+        r.violation("C13:spawn:argv-differs", format!("child argv {} but configured {}", show(&got_argv), show(&want_argv)), rp.clone());
+    }
+    // environment: exactly the provided entries; nothing given = (without `start`) Environment::None,
+    // (with `start`) Environment::Inherit, which in a std binary reads a null ENV.env_p = empty
+    let want_env: Vec<Vec<u8>> = cfg.env.clone().unwrap_or_default();
+    let got_env = strs(&h["env"]);
+    if got_env != want_env {
+        r.violation("C13:spawn:env-differs", format!("child environment {} but configured {}", show(&got_env), show(&want_env)), rp.clone());
+    }
+    let want_cwd = if cfg.cwd == "dir" { ctx.cwd_dir.clone().into_bytes() } else { unhex(obs["parent_cwd"].as_str().unwrap_or("")) };
+    let got_cwd = unhex(h["cwd"].as_str().unwrap_or(""));
+    if got_cwd != want_cwd {
+        r.violation("C13:spawn:cwd-differs", format!("child cwd \"{}\" but configured \"{}\"", show_bytes(&got_cwd), show_bytes(&want_cwd)), rp.clone());
+    }
+    // standard streams
+    let files = &obs["files"];
+    let filedata = |k: &str| unhex(files[k].as_str().unwrap_or(""));
+    let child_stdin = unhex(h["stdin"].as_str().unwrap_or(""));
+    for i in 0..3 {
+        let m = cfg.stdio[i];
+        let key = format!("C13:spawn:stdio-differs:{}:{}", STREAMS[i], m.name());
+        let got = &h["fds"][i];
+        let mut bad: Vec<String> = Vec::new();
+        let token: &[u8] = if i == 1 { OUT_TOKEN } else { ERR_TOKEN };
+        let parent_file = ["in0", "out1", "err2"][i];
+        let raw_file = ["raw0", "raw1", "raw2"][i];
+        let acc = got["acc"].as_i64().unwrap_or(-1);
+        let acc_ok = if i == 0 { acc == libc::O_RDONLY as i64 || acc == libc::O_RDWR as i64 } else { acc == libc::O_WRONLY as i64 || acc == libc::O_RDWR as i64 };
+        let held = obs["pipe_held"][i].as_bool().unwrap_or(false);
+        if held != (m == Sm::Pipe) {
+            bad.push(format!("parent {} a pipe end in Child.{}", if held { "holds" } else { "does not hold" }, STREAMS[i]));
+        }
+        match m {
+            Sm::Unset | Sm::Inherit => {
+                if !ident_eq(got, &obs["parent_ident"][i]) {
+                    bad.push(format!("descriptor {i} is {got}, the caller's is {}", obs["parent_ident"][i]));
+                }
+                if i == 0 && child_stdin != PARENT_STDIN {
+                    bad.push(format!("child read \"{}\" from stdin", show_bytes(&child_stdin)));
+                }
+                if i > 0 && filedata(parent_file) != token {
+                    bad.push(format!("the caller's {} received \"{}\"", STREAMS[i], show_bytes(&filedata(parent_file))));
+                }
+            }
+            Sm::Null => {
+                let n = &obs["null_ident"];
+                if !(ident_eq(got, n) && got["rdev"] == n["rdev"] && got["type"].as_u64() == Some(libc::S_IFCHR as u64)) {
+                    bad.push(format!("descriptor {i} is {got}, /dev/null is {n}"));
+                }
+                if !acc_ok {
+                    bad.push(format!("access mode {acc}"));
+                }
+                if i == 0 && !child_stdin.is_empty() {
+                    bad.push(format!("child read \"{}\" from stdin", show_bytes(&child_stdin)));
+                }
+            }
+            Sm::Pipe => {
+                if got["type"].as_u64() != Some(libc::S_IFIFO as u64) || !ident_eq(got, &obs["pipe_ident"][i]) {
+                    bad.push(format!("descriptor {i} is {got}, the parent's pipe end is {}", obs["pipe_ident"][i]));
+                }
+                if !acc_ok {
+                    bad.push(format!("access mode {acc}"));
+                }
+                if i == 0 && child_stdin != PIPE_STDIN {
+                    bad.push(format!("child read \"{}\" from the stdin pipe", show_bytes(&child_stdin)));
+                }
+                if i > 0 {
+                    let d = unhex(obs["pipe_data"][i]["data"].as_str().unwrap_or(""));
+                    if d != token {
+                        bad.push(format!("parent read \"{}\" from the pipe", show_bytes(&d)));
+                    }
+                }
+            }
+            Sm::Raw => {
+                if !ident_eq(got, &obs["raw_ident"][i]) {
+                    bad.push(format!("descriptor {i} is {got}, the given file is {}", obs["raw_ident"][i]));
+                }
+                if i == 0 && child_stdin != RAW_STDIN {
+                    bad.push(format!("child read \"{}\" from stdin", show_bytes(&child_stdin)));
+                }
+                if i > 0 && filedata(raw_file) != token {
+                    bad.push(format!("the given file received \"{}\"", show_bytes(&filedata(raw_file))));
+                }
+            }
+        }
+        // output of a redirected stream must not reach the caller's own stream
+        if i > 0 && !matches!(m, Sm::Unset | Sm::Inherit) && !filedata(parent_file).is_empty() {
+            bad.push(format!("the caller's own {} received \"{}\"", STREAMS[i], show_bytes(&filedata(parent_file))));
+        }
+        if !bad.is_empty() {
+            r.violation(&key, bad.join("; "), rp.clone());
+        }
+    }
+    // descriptors beyond 0..2: only what the caller itself left inheritable
+    let inh: HashSet<i64> = obs["inheritable"].as_array().map(|a| a.iter().filter_map(|x| x.as_i64()).collect()).unwrap_or_default();
+    let extra: Vec<String> = h["table"].as_array().map(|a| a.iter().filter(|e| { let n = e[0].as_i64().unwrap_or(-1); n > 2 && !inh.contains(&n) }).map(|e| e.to_string()).collect()).unwrap_or_default();
+    if !extra.is_empty() {
+        r.outcome("extra-descriptor-in-child");
+        r.violation("C13:spawn:stdio-differs:extra-descriptor", format!("the child holds descriptors the caller did not leave inheritable: {}", extra.join(" ")), rp.clone());
+    }
+    // ids
+    let num = |v: &Value| v.as_i64().unwrap_or(-1);
+    let want_uid = if cfg.uid == "nobody" { NOBODY as i64 } else { num(&obs["parent_uid"]) };
+    let want_gid = if cfg.gid == "nobody" { NOBODY as i64 } else { num(&obs["parent_gid"]) };
+    let want_pgid = match cfg.pgroup.as_str() {
+        "zero" => num(&h["pid"]),
+        "other" => num(&obs["shard_pgid"]),
+        _ => num(&obs["parent_pgid"]),
+    };
+    if num(&h["uid"]) != want_uid || num(&h["euid"]) != want_uid || num(&h["gid"]) != want_gid || num(&h["egid"]) != want_gid || num(&h["pgid"]) != want_pgid {
+        r.violation(
+            "C13:spawn:ids-differ",
+            format!("child uid/euid {}/{} gid/egid {}/{} pgid {} but configured uid {want_uid} gid {want_gid} pgid {want_pgid}", h["uid"], h["euid"], h["gid"], h["egid"], h["pgid"]),
+            rp.clone(),
+        );
+    }
+    if num(&h["pid"]) != num(&obs["child_pid"]) || num(&h["ppid"]) != num(&obs["caller"]) {
+        r.violation("C13:spawn:pid-differs", format!("Child.get_pid() = {} caller = {} but the program ran as pid {} with parent {}", obs["child_pid"], obs["caller"], h["pid"], h["ppid"]), rp.clone());
+    }
+    // pre-exec closure: ran once, in the child, before exec (its umask is visible in the program)
+    match cfg.closure.as_str() {
+        "ok" => {
+            if num(&obs["closure_runs"]) != 1 || num(&obs["closure_pid"]) != num(&h["pid"]) || h["umask"].as_u64() != Some(CLOSURE_UMASK as u64) {
+                r.violation("C13:spawn:closure-not-run-in-child", format!("closure ran {} time(s) in pid {} (child pid {}), child umask {:o}", obs["closure_runs"], obs["closure_pid"], h["pid"], h["umask"].as_u64().unwrap_or(0)), rp.clone());
+            }
+        }
+        _ => {
+            if h["umask"] != obs["parent_umask"] {
+                r.violation("C13:spawn:closure-not-run-in-child", format!("no closure configured but the child's umask is {:o}", h["umask"].as_u64().unwrap_or(0)), rp.clone());
+            }
+        }
+    }
+    // wait
+    let code = h["exit"].as_i64().unwrap_or(0);
+    match obs["wait"]["ok"].as_i64() {
+        Some(s) if s == (code & 0xff) << 8 => r.outcome("wait-returns-raw-wait-status"),
+        Some(s) if s == code & 0xff && code != 0 => r.outcome("wait-returns-exit-code"),
+        _ => {
+            r.violation("C13:wait:wrong-status", format!("the program exited with {code}; wait returned {}", obs["wait"]), rp.clone());
+        }
+    }
+    if obs["left"].as_array().map(|a| !a.is_empty()).unwrap_or(false) {
+        r.outcome("ok-wait-left-children");
+        r.violation("C13:wait:child-not-reaped", format!("after Ok + wait: {}", obs["left"]), rp.clone());
+    }
+}
+
+/// Judge one run.  Returns the observation's trace (for deriving faults) when there is one.
+fn judge(ctx: &Ctx, cfg: &Config, faults: &[Fault], res: &Result<Value, String>, r: &mut Report) {
+    let rp = replay_of(cfg, faults);
+    let step = match (faults.first(), cfg.natural_failure()) {
+        (Some(f), _) if faults.len() == 1 => f.step.clone(),
+        (Some(_), _) => faults.iter().map(|f| f.step.as_str()).collect::<Vec<_>>().join("+"),
+        (None, Some((s, _))) => s,
+        (None, None) if cfg.drops_both_ids() => "child-setgid".into(),
+        (None, None) => "none".into(),
+    };
+    let obs = match res {
+        Ok(o) => o,
+        Err(e) if e == "hang" => {
+            r.outcome("hang");
+            r.violation("C13:spawn:hang", format!("spawn (or reading the pipes / wait) did not finish within {CASE_ALARM}s; failing step: {step}"), rp);
+            return;
+        }
+        Err(e) => {
+            r.cap(format!("{e} (case {rp})"));
+            r.notes.push("machinery-failure".into());
+            return;
+        }
+    };
+    // the planned deviation must have happened, otherwise the run says nothing
+    let want_hits = (1u64 << faults.len()) - 1;
+    if obs["fault_hit"].as_u64() != Some(want_hits) || obs["trace_overflow"].as_bool() == Some(true) {
+        r.cap(format!("planned fault not applied (hit mask {} of {want_hits}, nr mismatch {}) in {rp}", obs["fault_hit"], obs["fault_nr_mismatch"]));
+        return;
+    }
+    // (1) exactly one process continues after spawn()
+    let returned = obs["returned_in_child"].as_u64().unwrap_or(0);
+    if returned > 0 {
+        r.outcome("returned-in-child");
+        r.violation(
+            &format!("C13:spawn:returned-in-child:{step}"),
+            format!(
+                "spawn() returned in the forked child (pid {}) as well as in the caller (pid {}): the statement after spawn() ran in {} processes{}",
+                obs["fork_pid"], obs["caller"], returned + 1, if obs["child_panicked"].as_u64() == Some(1) { " (the child got there by a panic)" } else { "" }
+            ),
+            rp.clone(),
+        );
+    }
+    if obs["spawn"] == "panic" {
+        r.outcome("panic");
+        r.violation("C13:spawn:panic", format!("spawn panicked in the caller: {}; failing step: {step}", obs["panic"]), rp);
+        return;
+    }
+    let spawn_ok = obs["spawn"] == "ok";
+    // expectation
+    let tolerated = !faults.is_empty() && faults.iter().all(|f| f.tolerable());
+    let expected_errnos: Vec<i32> = if !faults.is_empty() { faults.iter().map(|f| f.errno).collect() } else { cfg.natural_failure().map(|(_, e)| vec![e]).unwrap_or_default() };
+    let either = faults.is_empty() && cfg.natural_failure().is_none() && cfg.drops_both_ids();
+    let must_fail = !expected_errnos.is_empty() && !tolerated;
+    if spawn_ok {
+        if must_fail {
+            r.outcome("ok-despite-failed-step");
+            r.violation(
+                &format!("C13:spawn:ok-despite-failed-step:{step}"),
+                format!("step {step} failed with errno {:?} but spawn returned Ok (child pid {}, wait: {}, program dump present: {})", expected_errnos, obs["child_pid"], obs["wait"], !obs["helper"].is_null()),
+                rp,
+            );
+            return;
+        }
+        if returned > 0 {
+            return; // the "child" was a copy of the caller; nothing further to compare
+        }
+        r.outcome(if faults.is_empty() { "ok-dump-compared" } else { "ok-tolerated-fault-dump-compared" });
+        judge_ok(ctx, cfg, obs, r, &rp);
+        return;
+    }
+    // spawn returned Err
+    if expected_errnos.is_empty() && !either {
+        r.outcome("err-without-failed-step");
+        r.violation("C13:spawn:err-without-failed-step", format!("no step failed but spawn returned {}", obs["err"]), rp);
+        return;
+    }
+    let accept: Vec<i32> = if either { vec![libc::EPERM] } else { expected_errnos.clone() };
+    let code = obs["err"]["code"].as_i64();
+    match code {
+        Some(c) if accept.iter().any(|&e| e as i64 == c) => r.outcome(if faults.is_empty() { "err-natural-errno-relayed" } else if faults[0].child { "err-child-step-errno-relayed" } else { "err-parent-step-errno" }),
+        Some(c) if accept.iter().any(|&e| -(e as i64) == c) => {
+            r.outcome("err-negative-errno");
+            r.violation(&format!("C13:spawn:wrong-errno:{step}"), format!("step {step} failed with errno {accept:?}; the error carries the NEGATIVE value {c} ({})", obs["err"]), rp.clone());
+        }
+        _ => {
+            r.outcome("err-other-errno");
+            r.violation(&format!("C13:spawn:wrong-errno:{step}"), format!("step {step} failed with errno {accept:?}; the error is {}", obs["err"]), rp.clone());
+        }
+    }
+    // nobody may be left running the caller's code
+    for l in obs["left"].as_array().cloned().unwrap_or_default() {
+        match l["state"].as_str() {
+            Some("zombie") => r.outcome("err-child-left-unreaped"),
+            Some("alive") if l["is_helper"] == true => r.outcome("err-but-program-running"),
+            _ => {
+                r.outcome("err-child-left-running");
+                r.violation("C13:spawn:err-but-child-left-running", format!("spawn returned Err ({step}) and left {l}"), rp.clone());
+            }
+        }
+    }
+}
+
+fn faults_of_trace(obs: &Value, thorough: bool) -> Vec<Fault> {
+    let mut v = Vec::new();
+    for e in obs["trace"].as_array().cloned().unwrap_or_default() {
+        let child = e["side"] == "child";
+        let nr = e["nr"].as_i64().unwrap_or(-1);
+        let a = &e["args"];
+        let args = [a[0].as_u64().unwrap_or(0), a[1].as_u64().unwrap_or(0), a[2].as_u64().unwrap_or(0), 0, 0, 0];
+        for (errno, after_real) in menu(nr, thorough) {
+            v.push(Fault { child, idx: e["idx"].as_u64().unwrap_or(0) as usize, nr, errno, after_real, step: step_name(child, nr, &args) });
+        }
+    }
+    v
+}
+
+fn short_trace(obs: &Value) -> Vec<String> {
+    obs["trace"].as_array().map(|a| a.iter().map(|e| format!("{}:{}#{}", e["side"].as_str().unwrap_or("?"), e["call"].as_str().unwrap_or("?"), e["idx"])).collect()).unwrap_or_default()
+}
+
+/// fault-free run + (optionally) every single deviation (+ pairs)
+fn check_config(sh: &Shard, cfg: &Config, with_faults: bool, with_pairs: bool, r: &mut Report) {
+    let case = replay_of(cfg, &[]);
+    set_case(&case.to_string());
+    r.eval();
+    r.nontrivial_unique();
+    let res = sh.run(cfg, &[]);
+    judge(&sh.ctx, cfg, &[], &res, r);
+    let Ok(obs) = res else {
+        clear_case();
+        return;
+    };
+    let (np, nc) = obs["trace"].as_array().map(|a| (a.iter().filter(|e| e["side"] == "parent").count(), a.iter().filter(|e| e["side"] == "child").count())).unwrap_or((0, 0));
+    if *cfg == Config::base() {
+        r.bound("base_command_intercepted_calls_parent", np as u64);
+        r.bound("base_command_intercepted_calls_child", nc as u64);
+        r.bound("base_command_trace", json!(short_trace(&obs)));
+    }
+    r.sample(json!({"cfg": cfg.to_json(), "spawn": obs["spawn"], "err": obs["err"], "wait": obs["wait"], "calls_parent": np, "calls_child": nc,
+                    "child_argv": obs["helper"]["argv"].as_array().map(|a| a.iter().map(|s| show_bytes(&unhex(s.as_str().unwrap_or("")))).collect::<Vec<_>>())}));
+    if !with_faults || cfg.natural_failure().is_some() || cfg.drops_both_ids() {
+        clear_case();
+        return;
+    }
+    let faults = faults_of_trace(&obs, sh.ctx.thorough);
+    for f in &faults {
+        let fs = [f.clone()];
+        set_case(&replay_of(cfg, &fs).to_string());
+        r.eval();
+        r.nontrivial_unique();
+        let res1 = sh.run(cfg, &fs);
+        judge(&sh.ctx, cfg, &fs, &res1, r);
+        r.outcome(&format!("fault@{}", f.step));
+        if !with_pairs {
+            continue;
+        }
+        // second deviation: any call the run made after the first one (either side) that is not in
+        // the fault-free prefix
+        let Ok(o1) = res1 else { continue };
+        let fork_idx = o1["trace"].as_array().and_then(|a| a.iter().find(|e| e["side"] == "parent" && e["call"] == "fork").and_then(|e| e["idx"].as_u64())).map(|x| x as usize);
+        for f2 in faults_of_trace(&o1, true) {
+            // "after the first deviation": later on the same side, or on the other side once it exists
+            let later = if f2.child == f.child { f2.idx > f.idx } else { fork_idx.map(|k| f2.idx > k && f.idx > k).unwrap_or(false) };
+            if !later {
+                continue;
+            }
+            let fs2 = [f.clone(), f2.clone()];
+            set_case(&replay_of(cfg, &fs2).to_string());
+            r.eval();
+            r.nontrivial_unique();
+            let res2 = sh.run(cfg, &fs2);
+            judge_pair(&sh.ctx, cfg, &fs2, &res2, r);
+        }
+    }
+    clear_case();
+}
+
+/// Two deviations: the statement fixes less (which of the two errnos is reported is open), so the
+/// oracle is: one process continues, no panic/hang, Ok only when both deviations are absorbable,
+/// an Err carries one of the two errnos (positive), nobody is left running the caller's code.
+fn judge_pair(ctx: &Ctx, cfg: &Config, faults: &[Fault], res: &Result<Value, String>, r: &mut Report) {
+    let rp = replay_of(cfg, faults);
+    let step = faults.iter().map(|f| f.step.as_str()).collect::<Vec<_>>().join("+");
+    let obs = match res {
+        Ok(o) => o,
+        Err(e) if e == "hang" => {
+            r.violation("C13:spawn:hang", format!("two deviations ({step}): no result within {CASE_ALARM}s"), rp);
+            return;
+        }
+        Err(e) => {
+            r.cap(format!("{e} (case {rp})"));
+            return;
+        }
+    };
+    let hit = obs["fault_hit"].as_u64().unwrap_or(0);
+    if hit & 1 == 0 {
+        r.cap(format!("first planned fault not applied in {rp}"));
+        return;
+    }
+    if hit & 2 == 0 {
+        r.outcome("pair-second-not-reached");
+        return;
+    }
+    r.outcome("pair-both-applied");
+    if obs["returned_in_child"].as_u64().unwrap_or(0) > 0 {
+        r.violation(&format!("C13:spawn:returned-in-child:{}", faults[0].step), format!("two deviations ({step}): spawn() also returned in the forked child {}", obs["fork_pid"]), rp.clone());
+    }
+    if obs["spawn"] == "panic" {
+        r.violation("C13:spawn:panic", format!("two deviations ({step}): {}", obs["panic"]), rp);
+        return;
+    }
+    let essential: Vec<&Fault> = faults.iter().filter(|f| !f.tolerable()).collect();
+    if obs["spawn"] == "ok" {
+        if !essential.is_empty() {
+            r.violation(&format!("C13:spawn:ok-despite-failed-step:{}", essential[0].step), format!("two deviations ({step}): spawn returned Ok"), rp);
+        } else if obs["returned_in_child"].as_u64().unwrap_or(0) == 0 {
+            judge_ok(ctx, cfg, obs, r, &rp);
+        }
+        return;
+    }
+    let code = obs["err"]["code"].as_i64();
+    if !faults.iter().any(|f| Some(f.errno as i64) == code) {
+        let first = essential.first().map(|f| f.step.clone()).unwrap_or_else(|| faults[0].step.clone());
+        r.violation(&format!("C13:spawn:wrong-errno:{first}"), format!("two deviations ({step}, errnos {:?}): the error is {}", faults.iter().map(|f| f.errno).collect::<Vec<_>>(), obs["err"]), rp.clone());
+    }
+    for l in obs["left"].as_array().cloned().unwrap_or_default() {
+        match l["state"].as_str() {
+            Some("zombie") => r.outcome("pair-err-child-left-unreaped"),
+            Some("alive") if l["is_helper"] == true => r.outcome("pair-err-but-program-running"),
+            _ => r.violation("C13:spawn:err-but-child-left-running", format!("two deviations ({step}): spawn returned Err and left {l}"), rp.clone()),
+        }
+    }
+}
+
+// ---------------------------------------------------------------------------
+// the configuration family
+
+fn b(s: &[u8]) -> Vec<u8> {
+    s.to_vec()
+}
+
+fn single_factor(ctx: &Ctx) -> Vec<Config> {
+    let base = Config::base();
+    let mut v = vec![base.clone()];
+    let mut args: Vec<Vec<Vec<u8>>> = vec![vec![], vec![b(b"--exit=3"), b(b"x")], vec![b(b"--exit=3"), b(b"")], vec![b(b""), b(b"--exit=5")], vec![b(b"--exit=4"), b(b"\xff\xfe")]];
+    let mut envs: Vec<Vec<Vec<u8>>> = vec![vec![], vec![b(b"A=1")], vec![b(b"A=1"), b(b"B=two words")]];
+    if ctx.thorough {
+        args.extend([vec![b(b"a b"), b(b"--exit=2")], vec![b(b"--exit=0")], vec![b(b"--exit=255"), b(b"-")]]);
+        envs.extend([vec![b(b"NOEQ")], vec![b(b"E=")], vec![b(b"X=\xff\x80")], vec![b(b"A=1"), b(b"A=2")], vec![b(b""), b(b"Z=1")]]);
+    }
+    for a in args {
+        v.push(Config { args: a, ..base.clone() });
+    }
+    for e in envs {
+        v.push(Config { env: Some(e), ..base.clone() });
+    }
+    for c in ["dir", "missing"] {
+        v.push(Config { cwd: c.into(), ..base.clone() });
+    }
+    for i in 0..3 {
+        for m in [Sm::Inherit, Sm::Null, Sm::Pipe, Sm::Raw] {
+            let mut c = base.clone();
+            c.stdio[i] = m;
+            v.push(c);
+        }
+    }
+    v.push(Config { uid: "current".into(), ..base.clone() });
+    v.push(Config { gid: "current".into(), ..base.clone() });
+    if ctx.root_user {
+        v.push(Config { uid: "nobody".into(), ..base.clone() });
+        v.push(Config { gid: "nobody".into(), ..base.clone() });
+        v.push(Config { uid: "nobody".into(), gid: "nobody".into(), ..base.clone() });
+    }
+    for p in ["zero", "own", "other"] {
+        v.push(Config { pgroup: p.into(), ..base.clone() });
+    }
+    for c in ["ok", "fail"] {
+        v.push(Config { closure: c.into(), ..base.clone() });
+    }
+    for bn in ["missing", "notexec", "dir"] {
+        v.push(Config { bin: bn.into(), ..base.clone() });
+    }
+    v
+}
+
+fn stdio_triples() -> Vec<Config> {
+    let mut v = Vec::new();
+    for a in SMS {
+        for bb in SMS {
+            for c in SMS {
+                v.push(Config { stdio: [a, bb, c], ..Config::base() });
+            }
+        }
+    }
+    v
+}
+
+/// thorough: args x env x cwd x ids x closure x all stdio triples
+fn product() -> Vec<Config> {
+    let args: Vec<Vec<Vec<u8>>> = vec![vec![], vec![b(b"--exit=7")], vec![b(b"--exit=3"), b(b"")]];
+    let envs: Vec<Option<Vec<Vec<u8>>>> = vec![None, Some(vec![b(b"A=1")]), Some(vec![b(b"A=1"), b(b"B=two words")])];
+    let mut v = Vec::new();
+    for a in &args {
+        for e in &envs {
+            for cwd in ["unset", "dir"] {
+                for ids in [false, true] {
+                    for cl in ["none", "ok"] {
+                        for t in stdio_triples() {
+                            v.push(Config {
+                                bin: "helper".into(),
+                                args: a.clone(),
+                                env: e.clone(),
+                                cwd: cwd.into(),
+                                stdio: t.stdio,
+                                uid: if ids { "current" } else { "unset" }.into(),
+                                gid: if ids { "current" } else { "unset" }.into(),
+                                pgroup: if ids { "zero" } else { "unset" }.into(),
+                                closure: cl.into(),
+                            });
+                        }
+                    }
+                }
+            }
+        }
+    }
+    v
+}
+
+#[derive(Clone)]
+struct Job {
+    cfg: Config,
+    faults: bool,
+    pairs: bool,
+}
+
+fn jobs(ctx: &Ctx) -> Vec<Job> {
+    let mut seen: HashSet<String> = HashSet::new();
+    let mut out = Vec::new();
+    let mut add = |cfg: Config, faults: bool, pairs: bool, out: &mut Vec<Job>| {
+        if seen.insert(cfg.to_json().to_string()) {
+            out.push(Job { cfg, faults, pairs });
+        }
+    };
+    let piped = Config { stdio: [Sm::Pipe; 3], ..Config::base() };
+    for c in single_factor(ctx) {
+        let pairs = ctx.thorough && c == Config::base();
+        add(c, true, pairs, &mut out);
+    }
+    if ctx.thorough {
+        add(piped, true, true, &mut out);
+    }
+    for c in stdio_triples() {
+        add(c, ctx.thorough, false, &mut out);
+    }
+    if ctx.thorough {
+        let rep = [[Sm::Unset; 3], [Sm::Pipe; 3], [Sm::Null, Sm::Raw, Sm::Pipe]];
+        for c in product() {
+            let f = rep.contains(&c.stdio);
+            add(c, f, false, &mut out);
+        }
+    }
+    out
+}
+
+fn c13(args: &Args) -> Report {
+    let t0 = now();
+    let ctx = make_ctx(args.thorough);
+    let all = jobs(&ctx);
+    let n_cfg = all.len();
+    let n_fault_cfg = all.iter().filter(|j| j.faults).count();
+    // shards: fault-enumerating configurations are heavy (tens of runs), the others one run each
+    let mut items: Vec<Isolated> = Vec::new();
+    let mut light: Vec<Job> = Vec::new();
+    let mut heavy: Vec<Job> = Vec::new();
+    for j in all {
+        if j.faults {
+            heavy.push(j);
+        } else {
+            light.push(j);
+        }
+    }
+    let mut batches: Vec<Vec<Job>> = Vec::new();
+    let per_heavy = if ctx.thorough { 4 } else { 1 };
+    for c in heavy.chunks(per_heavy) {
+        batches.push(c.to_vec());
+    }
+    let per_light = (light.len() / (4 * n_workers()).max(1)).clamp(8, 200);
+    for c in light.chunks(per_light.max(1)) {
+        batches.push(c.to_vec());
+    }
+    // pairs are the longest jobs: start them first
+    batches.sort_by_key(|bt| !bt.iter().any(|j| j.pairs));
+    for (i, batch) in batches.into_iter().enumerate() {
+        let ctx = ctx.clone();
+        items.push(isolated(format!("s{i}"), move || {
+            let mut r = Report::new();
+            let sh = Shard::new(&ctx, &format!("s{i}"));
+            for j in &batch {
+                check_config(&sh, &j.cfg, j.faults, j.pairs, &mut r);
+            }
+            r
+        }));
+    }
+    let n_shards = items.len();
+    let mut r = run_isolated(items, &args.out, "C13");
+    let _ = std::fs::remove_dir_all(&ctx.root);
+    r.rule = "every configuration of the family (single-factor variations of a base command, all 125 stdio triples; thorough: args x env x cwd x ids x closure x stdio product) is spawned through the real Command::spawn in a fresh caller process; then once more per (intercepted call of parent or forked child, errno of the call's menu). Each (configuration, deviation list) is generated exactly once; a case is non-trivial when spawn was really executed (fork + exec of the dump program, or the planned deviation applied).".into();
+    r.bound("tier", if args.thorough { "thorough" } else { "quick" });
+    r.bound("tiny_std_start_feature", WITH_START);
+    r.bound("configurations", n_cfg as u64);
+    r.bound("configurations_with_fault_enumeration", n_fault_cfg as u64);
+    r.bound("shards", n_shards as u64);
+    r.bound("deviations", if args.thorough { "every single call x full errno menu; pairs (second deviation after the first, full menu) for the base command and the all-pipes command" } else { "every single call x 1-2 errnos" });
+    r.bound("args", "0..2 arguments incl. empty string and non-UTF-8 bytes");
+    r.bound("env", "nothing given, envs(0..2 entries) (thorough: entry without '=', empty value, non-UTF-8, duplicate key, empty entry)");
+    r.bound("wall_s", (t0.elapsed().as_millis() as u64) as f64 / 1000.0);
+    r.note(if WITH_START {
+        "built with tiny-std/start: the default environment is Environment::Inherit, which reads the private static tiny_std::env::ENV.env_p; in a std-linked harness nothing ever sets it (only tiny-std's own _start does), so Inherit passes a NULL envp = empty environment. Inheritance proper is therefore NOT exercised (needs hook H2 or a no-libc probe)."
+    } else {
+        "built without tiny-std/start: Environment::Inherit does not exist; default environment is Environment::None"
+    });
+    r.note("Child::wait returns the raw wait status (exit code << 8); the oracle accepts the raw status or the exit code");
+    r.note("fork is a real fork (the seam does not reproduce vfork; process.rs uses fork on x86_64)");
+    if !ctx.root_user {
+        r.note("not running as root: uid/gid = nobody configurations left out");
+    }
+    r
+}
+
+fn replay(v: &Value) -> Report {
+    let ctx = make_ctx(true);
+    let cfg = Config::from_json(&v["cfg"]);
+    let faults: Vec<Fault> = v["faults"].as_array().map(|a| a.iter().map(Fault::from_json).collect()).unwrap_or_default();
+    if let Some(var) = v["variant"].as_str() {
+        if (var == "start") != WITH_START {
+            eprintln!("note: the case was recorded with variant {var}; this binary is {}", if WITH_START { "start" } else { "nostart" });
+        }
+    }
+    let sh = Shard::new(&ctx, "replay");
+    let mut r = Report::new();
+    let res = sh.run(&cfg, &faults);
+    match &res {
+        Ok(o) => {
+            let mut o2 = o.clone();
+            let tr = short_trace(o);
+            o2["trace"] = json!(tr);
+            println!("observation: {}", serde_json::to_string_pretty(&o2).unwrap());
+        }
+        Err(e) => println!("no observation: {e}"),
+    }
+    if faults.len() >= 2 {
+        judge_pair(&ctx, &cfg, &faults, &res, &mut r);
+    } else {
+        judge(&ctx, &cfg, &faults, &res, &mut r);
+    }
+    let _ = std::fs::remove_dir_all(&ctx.root);
+    r
+}
+
+pub fn main() {
+    // exec'd under the helper's name (a copy of this executable): behave as the dump program
+    if helper::is_helper_exe() {
+        helper::helper_main();
+    }
+    let args = parse_args();
+    install_panic_hook();
+    if let Some(p) = &args.replay {
+        let v = read_replay(p);
+        let r = replay(&v);
+        println!("{}", serde_json::to_string_pretty(&r.to_json()).unwrap());
+        std::process::exit(if r.violations.is_empty() { 0 } else { 1 });
+    }
+    let phase = args.phase.clone().unwrap_or_else(|| if WITH_START { "c13-start".into() } else { "c13".into() });
+    let r = match (phase.as_str(), WITH_START) {
+        ("c13", false) | ("c13-start", true) => c13(&args),
+        ("c13", true) | ("c13-start", false) => {
+            let mut r = Report::new();
+            r.cap(format!("phase {phase} needs the {} build of h-spawn (this binary: with-start = {WITH_START})", if WITH_START { "plain" } else { "--features with-start (bin h-spawn-start)" }));
+            r.notes.push("machinery-failure".into());
+            r
+        }
+        _ => panic!("unknown phase {phase}"),
+    };
+    r.write(&args.out);
+}
